@@ -21,6 +21,9 @@ CHECKS = {
  "C05": ("fault_enumeration", "live-vs-reopened twin comparison after every op + no-trace oracle (stored bytes and all answers unchanged) after ops built to fail at named stages, incl. valid ops whose k-th storage write is failed by the interposed storage engine",
          "Runtime fault injection at the storage-write boundary and at every named failure stage, over random histories; the k of 'fail write k' is drawn from the measured write count of each op (sampled, not exhaustive per op; the thorough tier enumerates more).",
          "Trusted: verifmem (single Put/Delete and Batch.Write fail or apply atomically). Faults below the kvdb boundary are out of reach.", "DESIGN.md §3 C05"),
+ "C06": ("fault_enumeration", "crash-point enumeration: the interposed storage engine logs every atomic write of both databases; for every prefix of the write sequence of each scenario the crash image is rebuilt, opened, audited (ledger invariants, state == canon(pointer)+pool, conservation model), resynchronised to the ledger tip and audited again",
+         "Exhaustive over the write-prefix space of each generated scenario (dozens of scenarios in quick, >1000 in thorough); scenarios themselves are sampled.",
+         "Trusted: one kvdb Put/Delete/Batch.Write is atomic and durable (leveldb's contract), modelled by verifmem; crashes inside one write are out of reach.", "DESIGN.md §3 C06"),
 }
 NOT_YET = "check not built yet in this session (work in progress; see DESIGN.md for the planned monitor)"
 ALL = ["C%02d" % i for i in range(1, 21)]
